@@ -45,6 +45,9 @@ var KeywordFields = func() []string {
 			k = append(k, w)
 		}
 	}
+	// names of command verbs and namespace-bearing command keys: a document may well have a
+	// field called "collection", "ns", "count" or "update"
+	k = append(k, "ns", "collection", "find", "update", "delete", "insert", "aggregate", "replace", "findAndModify", "getIndexes", "countDocuments", "distinct", "getMore", "explain", "command", "cmd", "attr", "remote", "planSummary", "filter", "documents", "updates", "deletes", "q", "u", "sort")
 	return k
 }()
 
